@@ -1,6 +1,6 @@
 """C02  delta = Das-Pappu blob-averaged charge-asymmetry variance."""
 from .. import common, patterning, traces, tlc
-from ..objects import warmup
+from ..objects import warmup, make_object
 
 
 def run(ctx):
@@ -31,8 +31,8 @@ def run(ctx):
     seqs = common.random_sequences(ctx.rng, nseq, maxn, 4)
     trs = []
     for i, s in enumerate(seqs):
-        o = lc.SP(s)
-        hist = warmup(o, ctx.rng) if i % 2 else []
+        o, s, how = make_object(lc, s, ctx.rng)
+        hist = ([{"made": how}] if how != "direct" else []) + (warmup(o, ctx.rng) if i % 2 else [])
         out = common.call(o.get_delta)
         ctx.evaluations += 1
         if out[0] != "ok" or not common.is_number(out[1]):
